@@ -434,7 +434,14 @@ def main(tier, seed):
                            "modelled, not verified: the out-of-order managers and kernels are an oracle restricted to the modelled kinds of "
                            "descriptor writes (checked on every job run) and assumed to leave the error mirror alone (checked after every call); "
                            "libc strerror() assumed non-NULL"])
-    exe = k14_exe()
+    try:
+        exe = k14_exe()
+    except Exception as ex:
+        # no field table (t14 failed on this tree) or the harness does not compile against this header any more
+        res.violation({"property": PID, "seed": seed, "broken_obligations": pres["failed"], "correspondence": terrs + ["k14_desc build: %s" % str(ex)[-1500:]],
+                       "note": "the C14 harness cannot be built against this tree (layout translator or header changed); nothing was run"},
+                      note="no-failing-input-found", name="unproved")
+        return res.finish()
     private_lib("c14")
     rng = Rng(seed)
     items, expect = gen_items(rng, tier)
@@ -543,6 +550,13 @@ def verdict(res, pres, V, corr, exe, variants, seed, tier):
                            "note": "the C14 model (Mgr/Job.v, Mgr/Errno.v) / its generated inputs no longer check against this tree; "
                                    "no job, call or strerror argument violating the property was found"},
                           note="no-failing-input-found", name="unproved")
+    elif broken or corr:
+        # violations were reported above, but they need not be what broke the obligation: say so separately
+        res.violation({"property": PID, "seed": seed, "broken_obligations": pres["failed"], "correspondence": corr[:20],
+                       "proof_log_tail": pres["log"][-2500:] if broken else "",
+                       "note": "a proof obligation / translator / model-code correspondence of C14 is broken on this tree; whether one of the "
+                               "violations reported in the same run is its cause must be judged from the log"},
+                      note="broken-obligation (see the other violations of this run)", name="unproved")
     res.assumptions = ["descriptor writes by kernels are restricted to the modelled kinds (checked on every job of every run)",
                        "the out-of-order managers leave the error mirror alone (checked after every call)",
                        "libc strerror() returns a non-NULL string"]
